@@ -524,11 +524,15 @@ namespace bloch::update {
             std::istringstream in(content);
             std::string line;
             while (std::getline(in, line)) {
-                if (line.find(assetName) == std::string::npos)
-                    continue;
+                // sha256sum format: "<hash>  <file>" (binary mode prefixes the name with '*').
                 std::istringstream parts(line);
                 std::string hash;
-                if (parts >> hash)
+                std::string name;
+                if (!(parts >> hash >> name))
+                    continue;
+                if (!name.empty() && name.front() == '*')
+                    name.erase(name.begin());
+                if (name == assetName)
                     return hash;
             }
             return std::nullopt;
